@@ -691,6 +691,24 @@ func (c *Cluster) collect() {
 	}
 }
 
+// entryCmdTags returns the payload tags of the write commands carried by a log entry.
+func entryCmdTags(e myraft.Entry) []string {
+	if e.Type != myraft.EntryNormal || len(e.Data) == 0 {
+		return nil
+	}
+	req, ok, err := command.Decode(e.Data)
+	if err != nil || !ok {
+		return nil
+	}
+	var tags []string
+	for _, r := range req.GetRequests() {
+		for _, m := range r.GetPrewrite().GetMutations() {
+			tags = append(tags, string(m.GetValue()))
+		}
+	}
+	return tags
+}
+
 func entryTag(e myraft.Entry) string {
 	if e.Type != myraft.EntryNormal {
 		return "cc"
